@@ -42,10 +42,34 @@ func genVarLayers() {
 	}
 	// closures made by getRangeFunc(<dir>): "root" when applied to <receiver>.Dir, else "task"
 	closure := map[string]string{}
+	lazyDir, lazyExpand, lazyClosure := false, false, ""
 	if fd != nil {
 		ast.Inspect(fd, func(n ast.Node) bool {
 			as, ok := n.(*ast.AssignStmt)
 			if !ok || len(as.Lhs) != 1 || len(as.Rhs) != 1 {
+				return true
+			}
+			if fl, ok := as.Rhs[0].(*ast.FuncLit); ok {
+				// a closure that resolves the directory itself and then applies getRangeFunc(<dir>)(k, v):
+				// "task" when that directory comes from templating <task>.Dir, per call of the closure
+				inner := ""
+				ast.Inspect(fl.Body, func(m ast.Node) bool {
+					if ce, ok := m.(*ast.CallExpr); ok && src(ce.Fun) == "getRangeFunc" && len(ce.Args) == 1 {
+						inner = norm(src(ce.Args[0]))
+					}
+					return true
+				})
+				if inner != "" {
+					kind := "task"
+					if inner == "Compiler.Dir" {
+						kind = "root"
+					}
+					closure[src(as.Lhs[0])] = kind
+					body := src(fl.Body)
+					lazyDir = contains(body, "templater.Replace(") && contains(norm2(body, tyOf), "ast.Task.Dir")
+					lazyExpand = contains(body, "execext.ExpandLiteral(")
+					lazyClosure = src(as.Lhs[0])
+				}
 				return true
 			}
 			ce, ok := as.Rhs[0].(*ast.CallExpr)
@@ -90,7 +114,11 @@ func genVarLayers() {
 						marks = append(marks, "osEnviron")
 					}
 					if len(x.Lhs) == 1 && closure[src(x.Lhs[0])] == "task" && strings.Contains(s, "getRangeFunc(") {
-						marks = append(marks, "taskDirResolved")
+						if src(x.Lhs[0]) == lazyClosure {
+							marks = append(marks, "taskDirClosure") // the directory is resolved inside the closure, when a variable needs it
+						} else {
+							marks = append(marks, "taskDirResolved")
+						}
 					}
 				case *ast.IfStmt:
 					c := src(x.Cond)
@@ -105,6 +133,9 @@ func genVarLayers() {
 	}
 	l.pairList("order", order)
 	l.strList("marks", marks)
+	// the task directory of the `sh:` variables: templated from <task>.Dir each time the closure runs, and expanded (`~`) like compiledTask does
+	l.bool("taskDirPerVariable", lazyDir)
+	l.bool("taskDirExpandsLiteral", lazyExpand)
 
 	// compiledTask: new.Env.Merge(templater.ReplaceVars(X, cache), nil) in order
 	var merges []string
@@ -345,6 +376,15 @@ func genVarLayers() {
 	}
 	l.bool("mergeSetsInOrder", mergeSet)
 	l.write()
+}
+
+// norm2: every `<ident>.` whose identifier is a receiver / parameter is replaced by its type
+func norm2(body string, tyOf map[string]string) string {
+	for n, t := range tyOf {
+		body = strings.ReplaceAll(body, "("+n+".", "("+t+".")
+		body = strings.ReplaceAll(body, " "+n+".", " "+t+".")
+	}
+	return body
 }
 
 func sortPairs(ps [][2]string) {
